@@ -116,6 +116,11 @@ fn main() {
         vec![Ev::Include(1), Ev::Hk(false), Ev::Include(1)],
         vec![Ev::Ban(1), Ev::Include(1), Ev::Hk(false)],
         vec![Ev::Include(1), Ev::Ban(1), Ev::Demote(1), Ev::Hk(false)],
+        // two (three) peers ready for promotion to hot with max_hot = 1; warm limit with three cold peers
+        vec![Ev::Include(1), Ev::Include(2), Ev::Include(3), Ev::Hk(false), Ev::Connected(1), Ev::Sent(1, Msg::HsPropose(vec![(13, V)])), Ev::Recv(1, vec![Msg::HsAccept(13, 1)]),
+             Ev::Connected(2), Ev::Sent(2, Msg::HsPropose(vec![(13, V)])), Ev::Recv(2, vec![Msg::HsAccept(13, 1)]), Ev::Hk(false), Ev::Hk(true),
+             Ev::Connected(3), Ev::Sent(3, Msg::HsPropose(vec![(13, V)])), Ev::Recv(3, vec![Msg::HsAccept(13, 1)]), Ev::Hk(false),
+             Ev::Error(1), Ev::Error(1), Ev::Hk(false), Ev::Disconnected(1), Ev::Hk(false), Ev::Include(1), Ev::Hk(false)],
     ];
     for seq in &corpus {
         for cfg in small_cfgs.iter() {
@@ -136,7 +141,7 @@ fn main() {
             for (ci, cfg) in small_cfgs.iter().enumerate() {
                 // depth 5 is explored with the tighter config only
                 if len == 5 && ci == 1 { continue; }
-                let to_model = !args.oracle_only && (len <= 2 || (code as u64 * 2 + ci as u64 + args.seed) % (if thorough { 997 } else { 41 }) == 0);
+                let to_model = !args.oracle_only && (len <= 2 || (code as u64 * 2 + ci as u64 + args.seed) % (if thorough { 9973 } else { 41 }) == 0);
                 let mut it = syms.clone().into_iter();
                 run_history(*cfg, |_, _| it.next().map(symbol), 1, &format!("exhaustive-len{}", len), to_model);
                 n_ex += 1;
